@@ -9,7 +9,7 @@ import (
 func init() {
 	reg("C05", Meta{
 		Technique:   "sibling agreement of signer/verifier digests, provenance of address/owner, must-guard reachability in soc.Valid, interval-checked slicing in soc.FromChunk",
-		Explanation: "C05 (single-owner chunks), structural clauses: (A1) SOC.Sign signs and soc.FromChunk recovers over the same digest hash(id, wrapped chunk address), and the wrapped chunk FromChunk hashes is the one it stores; (P1) the owner is the Ethereum address of the signer's key (Sign) / of the key recovered from signature and digest (FromChunk); the SOC address is NewAddress(hash(id, owner)) behind len(owner)==AddressSize; (G1) soc.Valid returns a non-false verdict only as ch.Address().Equal(address of FromChunk(ch)) behind both error checks; (I1) every slicing of the payload in FromChunk is within the length guaranteed by the minimum-size guard. Not decided: ECDSA and keccak themselves, that altering a byte invalidates (follows from A1/P1/G1 plus cryptographic assumptions).",
+		Explanation: "C05 (single-owner chunks), structural clauses: (A1) SOC.Sign signs and soc.FromChunk recovers over the same digest hash(id, wrapped chunk address), and the wrapped chunk FromChunk hashes is the one it stores; (P1) the owner is the Ethereum address of the signer's key (Sign) / of the key recovered from signature and digest (FromChunk); the SOC address is NewAddress(hash(id, owner)) behind len(owner)==AddressSize; (G2) recoverAddress hands out an owner only as NewEthereumAddress(*Recover(signature, digest)) of its own two arguments, behind the recovery's error check (no cache/shortcut that skips the digest); (G1) soc.Valid returns a non-false verdict only as ch.Address().Equal(address of FromChunk(ch)) behind both error checks; (I1) every slicing of the payload in FromChunk is within the length guaranteed by the minimum-size guard. Not decided: ECDSA and keccak themselves, that altering a byte invalidates (follows from A1/P1/G1 plus cryptographic assumptions).",
 		Assumptions: []string{"crypto.Recover returns the key that signed the digest", "keccak256 is collision resistant"},
 	}, c05)
 }
@@ -92,6 +92,36 @@ func c05(r *core.Run) {
 	}
 	r.Check("C05.A1", core.Key("C05.A1", from, "recover(signature, digest)"), from.Pos(), okRec,
 		"the owner is recovered from the stored signature over exactly that digest", "recoverAddress is not called with (s.signature, digest)")
+
+	// G2 recoverAddress: the owner is ALWAYS recovered from (signature, digest) — no shortcut
+	// (cache, memo) may return an owner without checking this digest
+	if ra := w.Func("pkg/soc", "recoverAddress"); ra == nil {
+		r.Fatal("unresolved anchor pkg/soc.recoverAddress")
+	} else {
+		r.Saw(core.FuncName(ra))
+		r.Eval(core.EdgeCount(ra))
+		n := 0
+		core.EachInstr(ra, func(_ *ssa.BasicBlock, _ int, in ssa.Instruction) {
+			ret, ok := in.(*ssa.Return)
+			if !ok || core.IsNilConst(core.Forward(ret.Results[0])) {
+				return
+			}
+			n++
+			okv := false
+			if ec, idx := core.CallOf(ret.Results[0]); ec != nil && idx == 0 && core.IsCallTo(ec, "pkg/crypto.NewEthereumAddress") {
+				if p, isLoad := core.LoadedFrom(ec.Call.Args[0]); isLoad {
+					if rc, ridx := core.CallOf(p); rc != nil && ridx == 0 && core.IsCallTo(rc, "pkg/crypto.Recover") &&
+						rc.Call.Args[0] == ssa.Value(ra.Params[0]) && rc.Call.Args[1] == ssa.Value(ra.Params[1]) {
+						good, _ := core.AtomEdges(ra, core.ErrNilAtom(func(c *ssa.Call) bool { return c == rc }))
+						okv = len(good) > 0 && core.OnlyBehind(ra, ret, good)
+					}
+				}
+			}
+			r.Check("C05.G2", core.Key("C05.G2", ra, "owner only from Recover(signature, digest)"), ret.Pos(), okv,
+				"every owner address handed out was recovered from this signature over this digest", "recoverAddress can return an owner that was not recovered from (signature, digest) — e.g. from a cache keyed by the signature alone: a chunk with a known signature but another payload is accepted")
+		})
+		r.Floor("C05.G2", "non-nil returns of recoverAddress", n, 1)
+	}
 
 	// P1 owner
 	okOwnerF := false
